@@ -3,7 +3,7 @@
    (WF holds in every reachable state: C17_reachable_wf); composed over a history these give the property's clauses.
    The clause "a thread's end time is the time of its EXIT record" does not survive the EXIT of the main thread (finding F-C17):
    C17_exit_main_ends_all shows that the main thread's EXIT removes the whole process from the live table. *)
-From SV Require Import Model.Converter Proofs.ConverterProofs Proofs.ConverterNames.
+From SV Require Import Model.Converter Proofs.ConverterProofs Proofs.ConverterNames Proofs.ConverterFrozen Proofs.ConverterKeys.
 Open Scope N_scope.
 
 Theorem C17_reachable_wf : forall origin rs, WF (run origin rs).
@@ -62,7 +62,41 @@ Theorem C17_exit_main_ends_all :
   forall origin s pid ts p, alookup pid (lprocs s) = Some p -> lprocs (step origin s (RExit pid pid ts)) = aremove pid (lprocs s).
 Proof. exact exit_main_removes. Qed.
 
+(* keys of the live tables are unique in every reachable state *)
+Theorem C17_reachable_keys : forall origin rs, KU (run origin rs).
+Proof. intros origin rs. exact (run_KU origin rs (init origin) (KU_init origin)). Qed.
+
+(* frame condition: an entry that no live thread / process points at is never modified again, whatever records follow
+   (names and lifetimes of exited threads and retired processes are final) *)
+Theorem C17_frozen_thread_entry :
+  forall origin s rs h e, nth_error (pthreads s) h = Some e -> ~ In h (live_threads s) ->
+    nth_error (pthreads (fold_left (step origin) rs s)) h = Some e.
+Proof. exact frozen_thread_entry. Qed.
+Theorem C17_frozen_process_entry :
+  forall origin s rs h e, nth_error (pprocs s) h = Some e -> ~ In h (live_procs s) ->
+    nth_error (pprocs (fold_left (step origin) rs s)) h = Some e.
+Proof. exact frozen_process_entry. Qed.
+
+(* the EXIT of a live non-main thread: its entry ends at the EXIT time and stays exactly so under every continuation of the history *)
+Theorem C17_exit_thread_final :
+  forall origin s pid tid ts p th rs, WF s -> KU s -> (tid =? pid) = false ->
+    alookup pid (lprocs s) = Some p -> alookup tid (lp_threads p) = Some th ->
+    exists e, nth_error (pthreads (step origin s (RExit pid tid ts))) (lt_handle th) = Some e /\ te_end e = Some (ts - origin) /\ te_tid e = tid /\
+              nth_error (pthreads (fold_left (step origin) rs (step origin s (RExit pid tid ts)))) (lt_handle th) = Some e.
+Proof. exact exit_thread_frozen. Qed.
+
+(* the EXIT of the main thread: none of the process's thread entries is live afterwards (they are final from then on: F-C17's root) *)
+Theorem C17_exit_main_final :
+  forall origin s pid ts p, WF s -> KU s -> alookup pid (lprocs s) = Some p ->
+    forall h, In h (proc_thread_handles p) -> ~ In h (live_threads (step origin s (RExit pid pid ts))).
+Proof. exact exit_main_not_live. Qed.
+
 Print Assumptions C17_reachable_wf.
+Print Assumptions C17_reachable_keys.
+Print Assumptions C17_frozen_thread_entry.
+Print Assumptions C17_frozen_process_entry.
+Print Assumptions C17_exit_thread_final.
+Print Assumptions C17_exit_main_final.
 Print Assumptions C17_entries_stable.
 Print Assumptions C17_comm_names_thread.
 Print Assumptions C17_comm_names_entry.
